@@ -45,7 +45,7 @@ pub(crate) fn probe_arg(p: *mut u8, n: usize) -> ArgProbe {
 // from_str
 // ---------------------------------------------------------------------------------------
 
-// @harness name=from_str_any props=C01,C03,C05,C06,C09 class=U tier=quick big=yes
+// @harness name=from_str_any hist=yes props=C01,C03,C05,C06,C09 class=U tier=quick big=yes
 #[kani::proof]
 #[kani::stub(alloc::alloc::alloc, v_alloc)]
 #[kani::stub(alloc::alloc::dealloc, v_dealloc)]
@@ -107,7 +107,7 @@ fn from_str_contract(max: usize) {
 // from_static_str
 // ---------------------------------------------------------------------------------------
 
-// @harness name=from_static_str_any props=C01,C09,C10 class=U tier=quick big=yes
+// @harness name=from_static_str_any hist=yes props=C01,C09,C10 class=U tier=quick big=yes
 #[kani::proof]
 #[kani::stub(alloc::alloc::alloc, v_alloc)]
 #[kani::stub(alloc::alloc::dealloc, v_dealloc)]
@@ -153,7 +153,7 @@ fn from_static_str_contract(max: usize) {
 // with_capacity / new / from_char / from_bool
 // ---------------------------------------------------------------------------------------
 
-// @harness name=with_capacity_any props=C01,C03,C05,C06,C09,C11 class=U tier=quick covers=with_capacity.inline,with_capacity.heap,with_capacity.err_reachable,with_capacity.too_large
+// @harness name=with_capacity_any hist=yes props=C01,C03,C05,C06,C09,C11 class=U tier=quick covers=with_capacity.inline,with_capacity.heap,with_capacity.err_reachable,with_capacity.too_large
 #[kani::proof]
 #[kani::stub(alloc::alloc::alloc, v_alloc)]
 #[kani::stub(alloc::alloc::dealloc, v_dealloc)]
@@ -193,7 +193,7 @@ fn with_capacity_any() {
     }
 }
 
-// @harness name=new_empty props=C01,C09,C20 class=U tier=quick
+// @harness name=new_empty hist=yes props=C01,C09,C20 class=U tier=quick
 #[kani::proof]
 #[kani::stub(alloc::alloc::alloc, v_alloc)]
 #[kani::stub(alloc::alloc::dealloc, v_dealloc)]
@@ -226,7 +226,7 @@ pub(crate) fn spec_encode(c: u32) -> ([u8; 4], usize) {
     }
 }
 
-// @harness name=from_char_any props=C01,C09,C15 class=U tier=quick covers=from_char.w1,from_char.w2,from_char.w3,from_char.w4
+// @harness name=from_char_any hist=yes props=C01,C09,C15 class=U tier=quick covers=from_char.w1,from_char.w2,from_char.w3,from_char.w4
 #[kani::proof]
 #[kani::stub(alloc::alloc::alloc, v_alloc)]
 #[kani::stub(alloc::alloc::dealloc, v_dealloc)]
@@ -300,7 +300,7 @@ fn view_contract(pre: (Repr, Ghost)) {
     cov!(true, "view.post_reachable");
 }
 
-// @harness name=view_heap props=C01,C02,C08,C09,C11,C17 class=U tier=quick big=yes
+// @harness name=view_heap hist=yes props=C01,C02,C08,C09,C11,C17 class=U tier=quick big=yes
 #[kani::proof]
 #[kani::stub(alloc::alloc::alloc, v_alloc)]
 #[kani::stub(alloc::alloc::dealloc, v_dealloc)]
@@ -318,7 +318,7 @@ fn view_static() {
     view_contract(any_static(MAX_CAP));
 }
 
-// @harness name=view_inline props=C01,C08,C09,C11,C17,C20 class=U tier=quick covers=view.post_reachable
+// @harness name=view_inline hist=yes props=C01,C08,C09,C11,C17,C20 class=U tier=quick covers=view.post_reachable
 #[kani::proof]
 #[kani::stub(alloc::alloc::alloc, v_alloc)]
 #[kani::stub(alloc::alloc::dealloc, v_dealloc)]
